@@ -25,14 +25,14 @@ META = {
 }
 
 
-def _sd(names, alpha, tol, max_evl, seed, method="AM1", distort=0.05, converger=None, pad_to=None):
+def _sd(names, alpha, tol, max_evl, seed, method="AM1", distort=0.05, converger=None, pad_to=None, coords=None):
     import torch
 
     import seqm.MolecularDynamics as MD
     from seqm.Molecule import Molecule
     from seqm.seqm_functions.constants import Constants
 
-    s, x, ch, mu = esh.batch(names, pad_to=pad_to, pad_coord=0.0)
+    s, x, ch, mu = esh.batch(names, pad_to=pad_to, pad_coord=0.0, coords=coords)
     rng = np.random.default_rng(seed)
     x = x + (s > 0)[..., None] * rng.normal(size=x.shape) * distort
     sp = dict(method=method, scf_eps=1e-9, scf_converger=converger or [1], sp2=[False])
@@ -88,10 +88,13 @@ def probe_sd(inp: Dict[str, Any]) -> Dict[str, Any]:
             bad.append(f"energy of molecule {m} rises by {dE.max():.3e} eV at iteration {i+2} (alpha={inp['alpha']})"); kinds.add("descent")
     # update rule and padding
     s = r["species"]
+    update_ok = True
     for (xb, f, e, xa) in rec:
         upd = xb + inp["alpha"] * f
         if np.abs(xa - upd).max() > 1e-15 * max(1.0, np.abs(upd).max()):
-            bad.append("coordinate update is not x + alpha*F"); kinds.add("update"); break
+            # the model's update rule (SteepestDescent.step: x + alpha*F) no longer describes the code: a broken tie, not by itself a violation
+            # (a per-molecule step safeguard would keep every clause of the property); the probes decide
+            update_ok = False
         if (s == 0).any() and np.abs(xa[s == 0] - xb[s == 0]).max() != 0.0:
             bad.append("padding atoms moved"); kinds.add("padding"); break
     # stored coordinates one update past the last evaluated geometry; attributes belong to the last evaluation
@@ -100,14 +103,21 @@ def probe_sd(inp: Dict[str, Any]) -> Dict[str, Any]:
     if np.abs(r["E_final_attr"] - rec[-1][2]).max() != 0.0:
         bad.append("molecule.Etot after the run is not the energy of the last evaluated geometry"); kinds.add("return")
     return {"ok": not bad, "observed": bad[:6], "expected": "descent; truthful stop and report", "predicate": "recorded (x_i,F_i,E_i) vs stop rule/returns/log",
-            "fields": {"kinds": sorted(kinds), "alpha": inp["alpha"], "method": inp.get("method", "AM1")}, "trace": {"fmax": fmax, "E": E.tolist(), "ferr": r["ferr"], "eerr": r["eerr"], "notconv": said_not}}
+            "fields": {"kinds": sorted(kinds), "alpha": inp["alpha"], "method": inp.get("method", "AM1")}, "trace": {"update_ok": update_ok, "fmax": fmax, "E": E.tolist(), "ferr": r["ferr"], "eerr": r["eerr"], "notconv": said_not}}
 
 
 def probe_batch_path(inp: Dict[str, Any]) -> Dict[str, Any]:
     """path of molecule k independent of batch mates (compare the common prefix of iterations)"""
     k = inp["target"]
-    a = _sd([inp["names"][k]], inp["alpha"], 0.0, inp["n"], inp.get("seed", 0), distort=0.0)
-    b = _sd(inp["names"], inp["alpha"], 0.0, inp["n"], inp.get("seed", 0), distort=0.0)
+    # per-molecule start geometries: the target mildly, its batch mates possibly strongly distorted (large forces next to small ones)
+    rng = np.random.default_rng(inp.get("seed", 0))
+    xs = []
+    for i, nm in enumerate(inp["names"]):
+        x0 = esh.geom(nm)[1]
+        xs.append(x0 + rng.normal(size=x0.shape) * (inp.get("distort_target", 0.0) if i == k else inp.get("distort_mates", 0.0)))
+    kw = dict(method=inp.get("method", "AM1"), converger=inp.get("converger"))
+    a = _sd([inp["names"][k]], inp["alpha"], 0.0, inp["n"], 0, distort=0.0, coords=[xs[k]], **kw)
+    b = _sd(inp["names"], inp["alpha"], 0.0, inp["n"], 0, distort=0.0, coords=xs, pad_to=inp.get("pad_to"), **kw)
     nat = len(esh.GEOMS[inp["names"][k]][0])
     bad = []
     for i in range(inp["n"]):
@@ -115,7 +125,8 @@ def probe_batch_path(inp: Dict[str, Any]) -> Dict[str, Any]:
         if d > 1e-9:
             bad.append(f"iteration {i+1}: path of molecule {k} differs alone vs in batch by {d:.2e} A")
             break
-    return {"ok": not bad, "observed": bad, "expected": "path independent of batch mates", "predicate": "", "fields": {"kinds": ["batch_path"] if bad else []}}
+    fm = float(max(np.abs(r[1]).max() for r in b["rec"]))
+    return {"ok": not bad, "observed": bad or [f"largest force component in the batch {fm:.1f} eV/A"], "expected": "path independent of batch mates", "predicate": "", "fields": {"kinds": ["batch_path"] if bad else []}}
 
 
 PROBES = {"sd_run": probe_sd, "batch_path": probe_batch_path}
@@ -138,6 +149,14 @@ def gen_cases(ctx: Ctx):
     cases.append(("sd_run", {"names": ["h2o"], "alpha": 5e-3, "tol": 50.0, "max_evl": 1, "seed": 3}))
     cases.append(("sd_run", {"names": ["h2o"], "alpha": 5e-3, "tol": 50.0, "max_evl": 5, "seed": 3}))
     cases.append(("batch_path", {"names": ["h2o", "ch4"], "target": 0, "alpha": 5e-3, "n": 4, "seed": 1}))
+    # a batch mate far from equilibrium (forces of tens of eV/A) next to a mildly distorted target, large step factor
+    cases.append(("batch_path", {"names": ["ch4", "h2o", "nh3"], "target": int(rng.integers(0, 3)), "alpha": 1e-2, "n": 4, "seed": int(rng.integers(0, 10**6)), "distort_target": 0.02, "distort_mates": 0.25,
+                                 "method": str(rng.choice(["AM1", "PM3", "MNDO"])), "converger": [[1], [0, 0.2]][int(rng.integers(0, 2))], "pad_to": 6}))
+    if ctx.thorough:
+        for i in range(4):
+            nm = [str(v) for v in rng.choice(["h2o", "ch4", "nh3", "hf", "ch2o", "h2"], size=3)]
+            cases.append(("batch_path", {"names": nm, "target": int(rng.integers(0, 3)), "alpha": float(rng.choice([5e-3, 1e-2, 2e-2])), "n": 5, "seed": int(rng.integers(0, 10**6)),
+                                         "distort_target": 0.03, "distort_mates": float(rng.choice([0.1, 0.25, 0.4])), "method": ["AM1", "PM3", "MNDO", "PM6_SP"][i]}))
     return cases
 
 
@@ -158,6 +177,7 @@ def run(ctx: Ctx):
             ctx.probe_case(name, c, r["ok"], fields=r["fields"], observed=r["observed"], expected=r["expected"], predicate=r["predicate"], stratum=name)
             if name == "sd_run":
                 tr = r["trace"]
+                ctx.corr_case("Geometry_Optimization_SD.onestep update rule", {"alpha": c["alpha"], "names": c["names"]}, "x + alpha*F" if tr["update_ok"] else "something else", "x + alpha*F", tr["update_ok"])
                 try:
                     # replay: the model is fed the records the real run would see if it never stopped early: pad with the last record up to max_evl
                     E = tr["E"]
